@@ -669,6 +669,10 @@ Next ==
           ELSE IF ev.call = "determinism" THEN
              /\ viol' = viol \cup (IF ev.digest1 = ev.digest2 THEN {} ELSE {V(ev, {"C17"}, "two executions of the same scenario in fresh processes differ (first difference at event " \o ToString(ev.first) \o ": " \o ev.what \o ")")})
              /\ UNCHANGED <<st, slot, ans, glob>>
+          ELSE IF ev.call = "memcheck" THEN
+             \* valgrind memcheck over the process that executed the preceding scenarios (plain build)
+             /\ viol' = viol \cup (IF ev.errors > 0 THEN {V(ev, {"C17"}, "valgrind memcheck reports " \o ToString(ev.errors) \o " error(s): " \o ev.kinds \o " at " \o ev.sites)} ELSE {})
+             /\ UNCHANGED <<st, slot, ans, glob>>
           ELSE IF ev.call = "shutdown" THEN
              /\ viol' = viol \cup (IF ev.leak > 0 THEN {V(ev, {"C18"}, "memory allocated by the library is still unreleased after everything was freed and the library shut down (LeakSanitizer): " \o (IF "sites" \in DOMAIN ev THEN ev.sites ELSE "?"))} ELSE {})
              /\ UNCHANGED <<st, slot, ans, glob>>
